@@ -36,7 +36,12 @@ RULE = ("function level: one case = (MAC, version, length residue); for every "
         "single-byte-corrupted; sendRecord() output is decrypted and judged "
         "by the specification.  distinct_nontrivial counts distinct "
         "(mac,version,length,last byte) function cells plus distinct "
-        "(suite,version,EtM,content length,pad length) record cells.")
+        "(suite,version,EtM,content length,pad length) record cells.  "
+        "window cases: for every MAC and TLS version, padding lengths "
+        "224..255 (96..255 thorough) against every alignment of the body "
+        "with the hash block (well-formed, MAC/padding/content corrupted).  "
+        "record streams start two records before a carry of the 64-bit "
+        "sequence number (2^8 .. 2^63) on both the read and the write side.")
 ASSUMPTIONS = [
     "SSLv3 padding length p == block_size is a don't-care (RFC 6101 wording "
     "admits both readings); p > block_size must be rejected, padding bytes "
@@ -582,6 +587,12 @@ def rec_case(ctx, P):
     rl, sock = receiver(su, ver, etm, secrets)
     rl.changeReadState()
     snd = Sender(su, ver, etm, keys)
+    # the stream starts shortly before a boundary of the 64-bit sequence
+    # number (RFC 5246 6.1: uint64, never wraps) and walks across it
+    seq0 = P.get("seq0", 0)
+    rl._readState.seqnum = seq0
+    snd.seq = seq0
+    ctx.cell("rseq0", "%d" % seq0.bit_length())
     stream_ok = True
     trials = []
     for clen in P["clens"]:
@@ -792,8 +803,9 @@ def rec_case(ctx, P):
     # ---- sender side: tlslite writes, the specification reads -----------
     wl, wsock = receiver(su, ver, etm, secrets, client=True)
     wl.changeWriteState()
+    wl._writeState.seqnum = P.get("wseq0", 0)
     dec = mk_cipher(kind, keys.ckey, keys.civ)
-    for seq, clen in enumerate(P["slens"]):
+    for seq, clen in enumerate(P["slens"], P.get("wseq0", 0)):
         if ctx.expired():
             return
         content = rng.randbytes(clen)
@@ -862,11 +874,61 @@ def rec_case(ctx, P):
 
 
 # --------------------------------------------------------------------------
+# starting points two records before a carry of the sequence number
+SEQ0 = [0, (1 << 32) - 2, (1 << 8) - 2, (1 << 16) - 2, (1 << 24) - 2,
+        (1 << 31) - 2, (1 << 40) - 2, (1 << 48) - 2, (1 << 56) - 2,
+        (1 << 63) - 2, (1 << 64) - 4000]
+
+
+def window_case(ctx, P):
+    """long padding against every alignment of the body with the hash block:
+    the position of the MAC inside the scanned window depends on body
+    length, digest size and the hash's block size together"""
+    rng = ctx.rng
+    macname, ver = P["mac"], tuple(P["ver"])
+    hf = MACS[macname]
+    maclen, hblock = hf().digest_size, hf().block_size
+    key = rng.randbytes(maclen)
+    st = {"mac": macname, "ver": ver, "maclen": maclen, "key": key,
+          "libmac": lib_mac(macname, ver, key), "block": 16}
+    rot = 0
+    for p in P["pads"]:
+        lo = p + 1 + maclen
+        for n in range(lo, lo + 2 * hblock + 17):
+            if ctx.expired():
+                return
+            rot += 1
+            st["seq"] = rng.randbytes(8)
+            st["ctype"] = rng.choice(CTYPES)
+            st["block"] = 16 if n % 16 == 0 else 8
+            body = wellformed(rng, st, n, p)
+            clen = n - 1 - p - maclen
+            ctx.cell("wcell", "%s/%s/%d/%d" % (macname, VNAME[ver], n % hblock,
+                                               p))
+            judge(ctx, st, body, "window_wellformed", True)
+            for j in sorted({0, maclen - 1, rot % maclen}):
+                judge(ctx, st, flip(rng, body, clen + j), "window_corrupt_mac",
+                      False)
+            judge(ctx, st, flip(rng, body, n - 1 - p + rot % p),
+                  "window_corrupt_pad", False)
+            if clen:
+                judge(ctx, st, flip(rng, body, rot % clen),
+                      "window_corrupt_content", False)
+
+
 def make_cases(ctx):
     """record-level cases first: they are the cheaper part and must not be
     the ones a soft deadline cuts off"""
     for c in rec_cases(ctx):
         yield c
+    for macname in sorted(MACS):
+        for ver in VERS[1:]:
+            pads = list(range(224, 256)) if ctx.quick else \
+                list(range(96, 256))
+            for i in range(0, len(pads), 8):
+                yield ("w-%s-%s-%03d" % (macname, VNAME[ver], pads[i]),
+                       dict(kind="w", mac=macname, ver=ver,
+                            pads=pads[i:i + 8]))
     for macname in sorted(MACS):
         for ver in VERS:
             for res in range(RESIDUES):
@@ -908,6 +970,8 @@ def rec_cases(ctx):
                     yield ("r-%04x-%s-e%d-g%d" % (su[1], VNAME[ver], etm, g),
                            dict(kind="r", su=si, ver=ver, etm=etm,
                                 clens=clens, slens=slens,
+                                seq0=SEQ0[(g + si) % len(SEQ0)],
+                                wseq0=SEQ0[(g + si + 3) % len(SEQ0)],
                                 maxpads3des=maxpads,
                                 all3desneg=not ctx.quick))
 
@@ -916,6 +980,8 @@ def run(ctx):
     for cid, P in ctx.cases(make_cases(ctx)):
         if P["kind"] == "f":
             func_case(ctx, P)
+        elif P["kind"] == "w":
+            window_case(ctx, P)
         else:
             rec_case(ctx, P)
 
@@ -938,7 +1004,9 @@ def finalize(m, tier):
                  "corrupt_len_plus1", "corrupt_len_minus1",
                  "corrupt_content_first", "corrupt_content_last",
                  "arbitrary", "ssl3_arbitrary_pad", "ssl3_pad_over_block",
-                 "clamp_overlap", "all_equal_pad", "empty"):
+                 "clamp_overlap", "all_equal_pad", "empty",
+                 "window_wellformed", "window_corrupt_mac",
+                 "window_corrupt_pad"):
         if c.get("body:" + kind, 0) == 0:
             out.append("body class never evaluated: " + kind)
     if c.get("clamp_overlap_tls_1", 0) == 0:
@@ -951,6 +1019,8 @@ def finalize(m, tier):
             if not any(x.startswith(macname + "/") and x.endswith("/" + mode)
                        for x in rc):
                 out.append("record level: no %s %s case" % (macname, mode))
+    if len(m["cells"].get("rseq0", ())) < 6:
+        out.append("record level: fewer than 6 sequence number magnitudes")
     for v in VNAME.values():
         if not any("/%s/" % v in x for x in rc):
             out.append("record level: no case for " + v)
